@@ -16,6 +16,13 @@ CLAIMED = {
             'deserialize_transition selects for that type. Covers all observer/transition classes at once, including those no test exercises under the model checker.',
             'Type constants reaching an observer are those passed literally to its constructor in units that name the observer class; signedness differences are notes only.',
             'DESIGN.md §3 C43'),
+    'C46': ('affine conservation (Karr-style equalities) along every interprocedural CFG path, who-may-write, dataflow identity',
+            'Every path of File::write/seek/unlink/move/constructor (update_position and simcall lambdas inlined, parameters bound by value) is interpreted over affine '
+            'expressions of the entry values; at each normal exit delta(used size) must equal delta(file size), unlink must give back exactly size_, read must request '
+            'min(size, size_-position), and every size change must rewrite the content entry. A per-operation identity on all paths implies the accounting invariant '
+            'for every sequence of operations.',
+            'Disk::read/write results are opaque amounts; unsigned wrap-around not modelled; the used size has no writer other than incr/decr_used_size and parse_content (checked).',
+            'DESIGN.md §3 C46'),
 }
 
 NOT_APPLICABLE = {
